@@ -85,6 +85,99 @@ def analyse(ck, mode, optical, radio, staged):
         chk("frame.columns_immutable", not changed, "no column is modified after it has been added (the prefix equals the corresponding part of the final table)", str(changed))
 
 
+def opkey(o):
+    if o[0] == "cols":
+        return ("cols", tuple(o[1]))
+    if o[0] == "meta":
+        return ("meta", o[1])
+    return ("write", o[1], tuple(sorted(o[2].items())), tuple(o[3]), tuple(o[4]))
+
+
+def analyse_faults(ck, mode):
+    """a failure raised INSIDE a stage (not between two operations): what reaches the file up to the moment the exception leaves
+    compute() must be exactly the operations of the failure-free run that precede that stage -- nothing is added or rewritten on the way out"""
+    full = [p for p in Model(mode=mode, optical=True, radio=True, write_stages=True).run() if p.kind == "return" and any(c[1] == "Taus.__call__" for c in p.state["log"])]
+    if len(full) != 1:
+        o = ck.ob("compute[%s,fault-in-stage]/exec" % mode, "exec")
+        o.note = "%d failure-free paths" % len(full)
+        ck._undecided(o, None)
+        return
+    ref = [opkey(o) for o in full[0].state["ops"]]
+    for stage in ("energy_spectra", "Taus.__call__", "EAS.altDec", "EAS.__call__", "EASRadio.__call__", "calculate_snr", "geom.mcintegral"):
+        m = Model(mode=mode, optical=True, radio=True, write_stages=True, fail_stage=stage)
+        paths = m.run()
+        tag = "compute[%s,fault-in=%s]" % (mode, stage)
+        hit = [p for p in paths if p.kind == "raise" and "injected failure" in str(p.exc)]
+        if any(p.kind == "unsupported" for p in paths) or not hit:
+            o = ck.ob("%s/exec" % tag, "exec")
+            o.note = "; ".join("%s %s" % (p.kind, p.exc) for p in paths)[:300]
+            ck._undecided(o, None)
+            continue
+        for p in hit:
+            got = [opkey(o) for o in p.state["ops"]]
+            ok = got == ref[: len(got)] and (not got or got[-1][0] == "write")
+            extra = [g for g in got if g not in ref][:2]
+            ck.direct("%s/post.prefix_on_failure" % tag, ok, "frame", "ghost-state log of the symbolic execution (stage body raises)",
+                      clause="when a stage raises, the file holds exactly the operations completed before that stage, in order (the failure itself adds nothing to the table or the file)",
+                      note="" if ok else "operations on the failing path: %s; not in the failure-free run: %s" % (got[-3:], extra),
+                      witness=None if ok else {"mode": mode, "failing stage": stage, "extra operations": [str(e)[:80] for e in extra]},
+                      replay_out=None if ok else native_fault(ck, stage))
+
+
+def native_fault(ck, stage):
+    """real compute(write_stages=True) with the named stage's body raising: the file must have no header card beyond those of the failure-free prefix"""
+    import contextlib
+    import importlib
+    import io
+
+    import dask
+    from astropy.io import fits
+    from nuspacesim.config import NssConfig
+
+    C = importlib.import_module("nuspacesim.compute")
+    targets = {"Taus.__call__": (C.Taus, "tau_energy"), "EAS.altDec": None, "EAS.__call__": (C.EAS, "CphotAng"), "EASRadio.__call__": (C.EASRadio, "get_decay_view"), "energy_spectra": None, "calculate_snr": None, "geom.mcintegral": None}
+    tgt = targets.get(stage) or (C.Taus, "tau_energy")
+    cls, attr = tgt
+    tmp = tempfile.mkdtemp(prefix="c17f_", dir=os.environ.get("XDG_RUNTIME_DIR") or None)
+    out = os.path.join(tmp, "f.fits")
+    orig = cls.__dict__.get(attr)
+
+    class Boom(Exception):
+        pass
+
+    def boom(*a, **k):
+        raise Boom("injected")
+
+    cfg = NssConfig()
+    cfg.simulation.thrown_events = 200
+    try:
+        with contextlib.redirect_stdout(io.StringIO()), dask.config.set(scheduler="synchronous"), np.errstate(all="ignore"):
+            np.random.seed(ck.seed)
+            good = os.path.join(tmp, "g.fits")
+            C.compute(cfg, output_file=good, write_stages=True)
+            ref = list(fits.open(good)[1].header.keys())
+            if orig is not None:
+                setattr(cls, attr, boom)
+            else:
+                return {"violated": None, "note": "no native injection point for %s" % stage}
+            try:
+                np.random.seed(ck.seed)
+                C.compute(cfg, output_file=out, write_stages=True)
+            except Boom:
+                pass
+            finally:
+                setattr(cls, attr, orig)
+        hdr = list(fits.open(out)[1].header.keys()) if os.path.exists(out) else []
+        extra = [k for k in hdr if k not in ref]
+        return {"violated": bool(extra), "input": {"stage made to raise": "%s.%s" % (cls.__name__, attr), "thrown_events": 200, "seed": ck.seed}, "observed": {"header cards not present in any failure-free stage file": extra[:5]}}
+    except Exception as ex:
+        return {"violated": None, "note": "native fault run failed: %r" % ex}
+    finally:
+        for f in os.listdir(tmp):
+            os.unlink(os.path.join(tmp, f))
+        os.rmdir(tmp)
+
+
 def bounded_real(ck):
     """real compute(write_stages=True) on a small diffuse configuration with a fault injected after each
     StagedWriter operation: the file on disk must be a readable FITS table equal to the prefix."""
@@ -189,5 +282,7 @@ def run(ck):
     for mode, o, r in combos:
         for staged in (True, False):
             analyse(ck, mode, o, r, staged)
+    for mode in ("Diffuse", "Target"):
+        analyse_faults(ck, mode)
     if ck.tier == "thorough":
         ck.bounded_run("real compute with a fault after each staged write", lambda: bounded_real(ck), design="default diffuse configuration, 400 thrown events, fault after write k = 1..15; file re-read with astropy")
